@@ -15,11 +15,42 @@ import (
 type statusRec struct {
 	mu   sync.Mutex
 	reps []fbb.Status
+	// slow: how long the updater takes to handle a progress (not Done) report - a user interface redrawing, a log
+	// write. The reports of one transfer all come from one goroutine, so they can never overlap, however slow the
+	// updater is; overlap lists the messages for which a report was delivered while an earlier one was still being
+	// handled (the updater would have to be thread-safe, and "final" would mean nothing).
+	slow    time.Duration
+	active  map[string]int
+	overlap []string
+}
+
+func statusMID(s fbb.Status) string {
+	switch {
+	case s.Sending != nil:
+		return "S:" + s.Sending.MID()
+	case s.Receiving != nil:
+		return "R:" + s.Receiving.MID()
+	}
+	return ""
 }
 
 func (r *statusRec) UpdateStatus(s fbb.Status) {
+	mid := statusMID(s)
 	r.mu.Lock()
+	if r.active == nil {
+		r.active = map[string]int{}
+	}
+	if r.active[mid] > 0 {
+		r.overlap = append(r.overlap, mid)
+	}
+	r.active[mid]++
 	r.reps = append(r.reps, s)
+	r.mu.Unlock()
+	if r.slow > 0 && !s.Done {
+		time.Sleep(r.slow)
+	}
+	r.mu.Lock()
+	r.active[mid]--
 	r.mu.Unlock()
 }
 
@@ -145,6 +176,11 @@ func init() {
 				txlen = []int{0, 300, 100000}[c.Rng.Intn(3)]
 			}
 			ra, rb := &statusRec{}, &statusRec{}
+			if i%3 == 1 {
+				// an updater that needs longer than the rest of the transfer for a progress report
+				ra.slow = time.Duration(250+c.Rng.Intn(250)) * time.Millisecond
+				rb.slow = ra.slow
+			}
 			twa, twb := newTwin(sa), newTwin(sb)
 			xa, xb := sa.newSession(twa), sb.newSession(twb)
 			xa.SetStatusUpdater(ra)
@@ -184,7 +220,18 @@ func init() {
 			for time.Now().Before(deadline) && (countDone(ra.snapshot()) < nm || countDone(rb.snapshot()) < nm) {
 				time.Sleep(5 * time.Millisecond)
 			}
-			rep := map[string]interface{}{"pacing_mode": mode, "tx_buffer_len": txlen, "messages": nm, "errs": fmt.Sprint(errs)}
+			rep := map[string]interface{}{"pacing_mode": mode, "tx_buffer_len": txlen, "messages": nm, "errs": fmt.Sprint(errs), "updater_ms_per_progress_report": ra.slow.Milliseconds()}
+			for _, sr := range []struct {
+				name string
+				r    *statusRec
+			}{{"send", ra}, {"recv", rb}} {
+				sr.r.mu.Lock()
+				ov := append([]string{}, sr.r.overlap...)
+				sr.r.mu.Unlock()
+				if len(ov) > 0 {
+					c.Violate("C17:report-overlaps-earlier-report:"+sr.name, fmt.Sprintf("a report for %s was delivered while an earlier report of the same transfer was still being handled by the updater (the final report is then not final)", ov[0]), rep)
+				}
+			}
 			if errs[0] != nil || errs[1] != nil {
 				c.Violate("C17:exchange-failed", fmt.Sprintf("Exchange failed with a status updater installed: %v", errs), rep)
 				continue
